@@ -676,7 +676,41 @@ def r6_7(F, R):
     R.floor("R6.7", "component writes of <Glue as Display>::fmt", n, 3)
 
 
+def r6_8(F, R):
+    from ..cfg import Defs
+    from .common import producers
+    R.rule("R6.8", "coercion of an integer to a dimension works on the magnitude (TeX §448: `if cur_val < 0 then begin negative := not negative; "
+                   "negate(cur_val)`): the integer part handed to scan_and_apply_units — whose overflow tests and clamping assume a non-negative "
+                   "integer part — never comes straight from parse_internal_number (a signed register value); it passes `abs` first and the sign is "
+                   "applied to the result. The two coercion sites (scan_dimen and the glue scanner) must agree on this")
+    tgt = [f for f in F.fns.values() if strip_generics(f.name) == "texlang::parse::dimen::scan_and_apply_units"]
+    if len(tgt) != 1:
+        raise AnchorError("R6.8: scan_and_apply_units: %d matches" % len(tgt))
+    n = 0
+    for fn in sorted(F.fns.values(), key=lambda f: f.name):
+        if fn.crate != "texlang.lib" or "::tests::" in fn.name:
+            continue
+        D = None
+        for bi, t in fn.calls():
+            c = t.get("callee") or {}
+            if tgt[0].id not in (c.get("id"), c.get("rid")) or len(t.get("args") or []) < 3:
+                continue
+            D = D or Defs(fn)
+            n += 1
+            inst = "%s/integer-part#%d" % (strip_generics(fn.name).replace("texlang::parse::", ""), n)
+            pr = producers(fn, D, t["args"][2])
+            raw = [name for tag, name, ty in pr if tag == "call" and name.endswith("parse_internal_number")]
+            if raw:
+                R.violation("R6.8", inst, "%s hands the signed value of an internal integer straight to scan_and_apply_units: its range tests assume a "
+                            "non-negative integer part, so `\\count1 sp` with a large negative \\count1 is not reported as too large (or is clamped to "
+                            "the wrong sign)" % fn.name, fn.loc(t))
+            else:
+                R.ok("R6.8", inst, "integer part produced by %s" % sorted({name.split("::")[-1] for tag, name, ty in pr if tag == "call"}), fn.loc(t), how="provenance")
+    R.floor("R6.8", "calls of scan_and_apply_units", n, 2)
+
+
 def run(F, R, tier):
+    r6_8(F, R)
     r6_7(F, R)
     r6_6(F, R)
     r6_1(F, R)
